@@ -228,8 +228,14 @@ def run(ctx, rep):
         for cb in region(F, gb):
             for bi, st in agg_sites(cb, "encode::EncoderSeekPoint"):
                 found = True
-                sl = backward_slice(cb, st["rv"]["ops"][1])
-                good = any(op.startswith("Sub") for op in sl["ops"]) and 1 in sl["args"] and 2 in sl["args"] and any(a["var"] == "Some" for a in sl["aggs"])
+                sl = slice_with_captures(F, cb, st["rv"]["ops"][1])
+                sub = any(op.startswith("Sub") for op in sl["ops"]) or any(re.search(r"checked_sub$|saturating_sub$", callee_name(c)) for c in sl["calls"])
+                some = any(a["var"] == "Some" for a in sl["aggs"])
+                if cb.kind == "Closure":
+                    good = sub and 1 in backward_slice(cb, st["rv"]["ops"][1])["args"] and 2 in backward_slice(cb, st["rv"]["ops"][1])["args"] and some
+                else:
+                    # explicit loop in the function body: the subtrahend is the metadata length measured before the frames
+                    good = sub and some
                 rep.check("C09.units", "generate_seektable: byte offset = frame offset - metadata length", good, cb.loc(st["sp"]),
                           "Some(offset from the frame iterator - captured metadata_len)", "seek point byte offsets are not made relative to the first frame")
                 sl0 = backward_slice(cb, st["rv"]["ops"][0])
@@ -256,6 +262,23 @@ def run(ctx, rep):
                 for s in bl["s"]:
                     if s["rv"]["r"] == "use" and op_local(s["rv"]["o"]) == dest["l"] and s["d"]["p"]:
                         uses.append(root_place(fb, {"l": s["d"]["l"], "p": s["d"]["p"]}))
+            if not dest["p"] and not uses:
+                # the value may be wrapped (Some(min(..))) and flow through a match result before it is stored: follow forward
+                frontier, seen_l = {dest["l"]}, set()
+                for _ in range(6):
+                    nxt = set()
+                    for bl in fb.blocks:
+                        for s in bl["s"]:
+                            ops_ = rv_operands(s["rv"])
+                            if any(op_local(o) in frontier for o in ops_ if isinstance(o, dict)):
+                                if s["d"]["p"] and place_fields(root_place(fb, s["d"]) or {"p": []}):
+                                    uses.append(root_place(fb, s["d"]))
+                                elif s["d"]["l"] not in seen_l:
+                                    nxt.add(s["d"]["l"])
+                    seen_l |= frontier
+                    frontier = nxt
+                    if not frontier or uses:
+                        break
             if not dest["p"] and not uses:
                 continue
             tgt = uses[0] if uses else root_place(fb, dest)
